@@ -14,8 +14,9 @@ def run(ctx):
     ctx.tlc_stats.append(dict(name="enumerate", module="AuthFail", cfg="product of annotation values", generated=r["generated"],
                               distinct=r["distinct"], depth=r["depth"], wall_s=round(r["wall"], 1), violated=None))
     cases = core.behaviours_from_print(r["out"])
-    if len(cases) != 10 * 4 * 2 * 3 * 2 * 3 * 2 * 2 * 2:
-        raise Undecided("expected 11520 cases, TLC printed %d" % len(cases))
+    nbase, nextra = 10 * 4 * 2 * 3 * 2 * 3 * 2 * 2 * 2, 4 * 2 * 2 * 2 * 2 * 3
+    if len(cases) != nbase + nextra - 4 * 2 * 2:
+        raise Undecided("expected %d cases, TLC printed %d" % (nbase + nextra - 16, len(cases)))
     inp = ctx.path("a", "in.json")
     out = ctx.path("a", "trace.ndjson")
     json.dump(cases, open(inp, "w"))
@@ -43,6 +44,10 @@ def run(ctx):
             sig = "FailClosed:backend:%s:%s:%s" % (c["url"], c["oauth"], sub)
         if b.get("alias"):
             sig += ":through-alias"
+        at_frontend = c["placement"] == "frontend" and c.get("src") == "ingress" and c.get("elder") != "backend"
+        if (c.get("src"), c.get("oprefix"), c.get("elder")) != ("ingress", "default", "none") and not at_frontend:
+            # (a guard that really is placed in the frontend has the listed flaws F5 / F41 whatever these dimensions say)
+            sig += ":%s:%s:%s" % (c.get("src"), c.get("oprefix"), c.get("elder"))
         if sig in seen:
             continue
         seen.add(sig)
